@@ -14,6 +14,7 @@ import (
 	"encoding/binary"
 	"errors"
 	"hash/crc32"
+	"math"
 	"time"
 )
 
@@ -39,6 +40,10 @@ const (
 
 	// BlockHeaderSize is the fixed size of each block header
 	BlockHeaderSize = 16
+
+	// MaxKeyLength is the longest key an entry can carry: the on-disk key
+	// length field is 16 bits wide.
+	MaxKeyLength = math.MaxUint16
 )
 
 // Operation types for entries
@@ -56,6 +61,8 @@ var (
 	ErrCorruptedBlock    = errors.New("block checksum mismatch")
 	ErrCorruptedEntry    = errors.New("entry data corrupted")
 	ErrEmptyKey          = errors.New("entry key cannot be empty")
+	ErrKeyTooLong        = errors.New("entry key is longer than 65535 bytes")
+	ErrDataTooLarge      = errors.New("entry data is larger than 4 GiB")
 	ErrFileClosed        = errors.New("file is closed")
 	ErrCompactionRunning = errors.New("compaction is already running")
 )
@@ -289,6 +296,24 @@ func (e *Entry) Deserialize(buf []byte) (int, error) {
 	offset += dataLen
 
 	return offset, nil
+}
+
+// Validate reports whether the entry can be encoded faithfully. The on-disk
+// format stores the key length in 16 bits and the data length in 32 bits, and
+// the reader treats an empty key as corruption, so anything outside those
+// limits must be refused at write time: once such an entry is in a block the
+// whole file fails to load.
+func (e *Entry) Validate() error {
+	if e.Key == "" {
+		return ErrEmptyKey
+	}
+	if len(e.Key) > MaxKeyLength {
+		return ErrKeyTooLong
+	}
+	if uint64(len(e.Data)) > math.MaxUint32 {
+		return ErrDataTooLarge
+	}
+	return nil
 }
 
 // Size returns the serialized size of the entry
